@@ -1410,6 +1410,16 @@ valid_op(Op) :-
 op_(Priority, OpSpec, Op) :-
     '$op'(Priority, OpSpec, Op).
 
+% the checks op/3 makes for one operator name of a list, without changing the table
+op_check(Priority, OpSpec, Op) :-
+    (  Op == '|' ->
+       (  lists:member(OpSpec, [xfx, xfy, yfx]),
+          ( Priority >= 1001 ; Priority == 0 ) -> true
+       ;  throw(error(permission_error(create, operator, (|)), op/3))
+       )
+    ;  true
+    ).
+
 
 %% op(Priority, Spec, Op)
 %
@@ -1434,6 +1444,7 @@ op(Priority, OpSpec, Op) :-
     ;  valid_op(Op), op_priority(Priority), op_specifier(OpSpec) ->
        '$op'(Priority, OpSpec, Op)
     ;  list_of_op_atoms(Op), op_priority(Priority), op_specifier(OpSpec) ->
+       lists:maplist(builtins:op_check(Priority, OpSpec), Op),
        lists:maplist(builtins:op_(Priority, OpSpec), Op),
        !
     ;  throw(error(type_error(list, Op), op/3)) % 8.14.3.3 f)
